@@ -24,7 +24,9 @@
     octets" (`get_trailing_size`), and the outer span advances by that sub-span (since the `fix:`
     commit "skip the whole field span after an unknown-size struct field"; before, by what `Parse`
     had left of the sub-span, i.e. by nothing);
-  * element-size fields and custom fields are outside the model (`.panic .badLayout`).
+  * element-size fields and custom fields are outside the model (`.panic .badLayout`);
+  * a getter is evaluated where its array is parsed, with the count read so far (two `_count_` fields for one
+    array, which the analyzer rejects, would make the emitted getter use the later one).
   `false` from a parser is `.err` (which error is not meaningful: the C++ code has one).
 -/
 import Pdlv.Py
@@ -357,18 +359,21 @@ def getter (c : Cfg) (elem : Ty) (shape : Shape) (cnt : Option Nat) (sl : Bytes)
     | .struct _ b => lenientParse (decBody c b) (sl.length + 1) limit sl
     | .custom .. => .panic .badLayout
 
-/-- the slices of the arrays of a view, by field name -/
-abbrev Slices := List (String × Bytes)
-
-/-- one field of a view parser: as the struct parser, but arrays are kept as slices -/
-def viewItem (c : Cfg) (all rest : Items) : Item → Bytes → DState × Slices → Dec ((DState × Slices) × Bytes)
-  | .array id elem ew shape pad, bs, (st, sl) =>
+/-- one field of a view parser: as the struct parser, but an array is kept as a slice behind the checks of
+    `arrayLite`, and its getter parses that slice.  The getters run only on a valid view, after the parser:
+    their values are computed here, where the slice and the count are at hand, and a failed assertion inside a
+    getter is DEFERRED (second component of the state) until the view has been found valid. -/
+def viewItem (c : Cfg) (all rest : Items) : Item → Bytes → DState × Option Hazard → Dec ((DState × Option Hazard) × Bytes)
+  | .array id elem ew shape pad, bs, (st, hz) =>
     (arrayLite c elem ew shape (countWidth id all) (st.ctx.get (.count id)) (st.ctx.get (.size id)) bs).bind
       fun (s, r) => (afterPad pad bs.length r).bind fun r' =>
-        .ok (({ st with fields := st.fields ++ [(id, .null)] }, sl ++ [(id, s)]), r')
-  | i, bs, (st, sl) => (decItem c all rest i bs st).bind fun (st', r) => .ok ((st', sl), r)
+        match getter c elem shape (st.ctx.get (.count id)) s with
+        | .ok vs => .ok (({ st with fields := st.fields ++ [(id, .arr vs)] }, hz), r')
+        | .panic h => .ok (({ st with fields := st.fields ++ [(id, .null)] }, hz.or (some h)), r')
+        | .err _ => .ok (({ st with fields := st.fields ++ [(id, .null)] }, hz.or (some .badValue)), r')
+  | i, bs, (st, hz) => (decItem c all rest i bs st).bind fun (st', r) => .ok ((st', hz), r)
 
-def viewItems (c : Cfg) (all : Items) : Items → Bool → Bytes → DState × Slices → Dec ((DState × Slices) × Bytes)
+def viewItems (c : Cfg) (all : Items) : Items → Bool → Bytes → DState × Option Hazard → Dec ((DState × Option Hazard) × Bytes)
   | .nil, _, bs, s => .ok (s, bs)
   | .cons i r, inRun, bs, s =>
     match runLen i with
@@ -377,28 +382,41 @@ def viewItems (c : Cfg) (all : Items) : Items → Bool → Bytes → DState × S
       else (viewItem c all r i bs s).bind fun (s', bs') => viewItems c all r true bs' s'
     | none => (viewItem c all r i bs s).bind fun (s', bs') => viewItems c all r false bs' s'
 
-/-- the getters of the array fields, in field order, over the final context -/
-def getters (c : Cfg) (ctx : Ctx) (sl : Slices) : Items → Dec (List (String × Value))
-  | .nil => .ok []
-  | .cons (.array id elem _ shape _) r =>
-    (getter c elem shape (ctx.get (.count id)) ((sl.lookup id).getD [])).bind fun vs =>
-      (getters c ctx sl r).bind fun m => .ok ((id, .arr vs) :: m)
-  | .cons _ r => getters c ctx sl r
-
 /-- `TView::Create(slice)`, `IsValid()`, then every getter: the field values of a valid view -/
 def viewDecode (c : Cfg) : Body → Bytes → Dec Value
   | .root _ items, bs =>
-    (viewItems c items items false bs (DState.empty, [])).bind fun ((st, sl), r) =>
+    (viewItems c items items false bs (DState.empty, none)).bind fun ((st, hz), r) =>
       if !r.isEmpty then .err .trailingBytes
       else
-        (getters c st.ctx sl items).bind fun arrs =>
-          .ok (.obj (st.fields.map (fun (k, v) => match arrs.lookup k with
-                                      | some a => (k, a)
-                                      | none => (k, v)) ++
+        match hz with
+        | some h => .panic h
+        | none =>
+          .ok (.obj (st.fields ++
                     (match st.payload with
                      | some p => [("payload", Value.ofBytes p)]
                      | none => [])))
   | .derived .., _ => .panic .badLayout
+
+/-! ### the layouts on which the emitted view parser and its getters are shown to agree with the reference -/
+
+/-- as `wfItem`, with arrays of scalars of at least one octet only (the view parser validates no array element,
+    the getters are lenient: KF-C14-enum-array, KF-C14-struct-array-*) -/
+def vwfItem (all rest : Items) : Item → Bool
+  | .array id elem ew shape pad =>
+    pad.isNone &&
+    (match elem, ew with
+     | .scalar w', .static w => w == w' / 8 && decide (0 < w) &&
+         (match shape with | .countField => countOk all id w | _ => true)
+     | _, _ => false)
+  | i => wfItem all rest i
+
+def vwfItems (all : Items) : Items → Bool
+  | .nil => true
+  | .cons i r => vwfItem all r i && vwfItems all r
+
+def vwfBody : Body → Bool
+  | .root _ items => vwfItems items items
+  | .derived .. => false
 
 end Cxx
 end Pdlv
